@@ -16,51 +16,33 @@ NB == 32
 ND == 43
 Text(m) == Encode(Digest(m), ND)       \* the 32 digest bytes, read as a little-endian number
 
-RECURSIVE Flatten(_)
-Flatten(ss) == IF ss = <<>> THEN <<>> ELSE Head(ss) \o Flatten(Tail(ss))
-
 \* byte-wise lexicographic order (Rust's String order)
 LexLess(a, b) == \E k \in 1..(Len(a) + 1) :
                     /\ \A j \in 1..(k - 1) : j <= Len(b) /\ a[j] = b[j]
                     /\ \/ (k = Len(a) + 1 /\ Len(b) >= k)
                        \/ (k <= Len(a) /\ k <= Len(b) /\ a[k] < b[k])
 
-Join(ss, sep) == IF ss = <<>> THEN <<>> ELSE FoldLeft(LAMBDA acc, s : acc \o sep \o s, Head(ss), Tail(ss))
-
-\* a tree node is [n |-> name bytes, k |-> "f" | "d", b |-> bytes, c |-> children]
-RECURSIVE DirDigest(_, _)
-DirDigest(path, children) ==
-    LET full(x) == path \o <<47>> \o x.n
-        sorted == SortSeq(children, LAMBDA x, y : LexLess(full(x), full(y)))
-        listing == Join([i \in 1..Len(sorted) |-> full(sorted[i])], <<10>>)
-        sub(x) == IF x.k = "f" THEN Digest(x.b) ELSE DirDigest(full(x), x.c)
-    IN Digest(listing \o Flatten([i \in 1..Len(sorted) |-> sub(sorted[i])]))
-
-\* tree equality up to the order of the children (a directory is a set of entries).  The property speaks of contained
-\* names and contents: an empty file and an empty directory of one name hold the same names (none) and the same content
-\* (none), so they count as the same here (ruler gives both the ticket of the empty string; see DESIGN section 17).
-Hollow(x) == IF x.k = "f" THEN x.b = <<>> ELSE x.c = <<>>
-RECURSIVE SameTree(_, _)
-SameTree(c1, c2) == /\ Len(c1) = Len(c2)
-                    /\ \A i \in 1..Len(c1) : \E j \in 1..Len(c2) :
-                          /\ c1[i].n = c2[j].n
-                          /\ \/ Hollow(c1[i]) /\ Hollow(c2[j])
-                             \/ /\ c1[i].k = c2[j].k
-                                /\ IF c1[i].k = "f" THEN c1[i].b = c2[j].b ELSE SameTree(c1[i].c, c2[j].c)
+\* DirDigest(path, children), Flatten, SameTree: DirHash.tla with SHA-256 over byte sequences
+INSTANCE DirHash WITH D <- Digest, Less <- LexLess, Nl <- <<10>>, Slash <- <<47>>, Nil <- <<>>
 
 IsText(t) == Len(t) = ND /\ \A i \in 1..ND : DigitOf(t[i]) < 62
 
 Allowed(r) ==
-    CASE r.kind = "file"    -> LET t == Text(r.bytes) IN \A i \in 1..Len(r.outs) : r.outs[i].ok /\ r.outs[i].out = t
+    CASE r.kind = "file"    -> LET t == Text(r.bytes) IN \A i \in 1..Len(r.outs) :
+                                  IF r.outs[i].fault THEN r.outs[i].ok => r.outs[i].out = t       \* an injected read error may be reported as an error
+                                  ELSE r.outs[i].ok /\ r.outs[i].out = t
       [] r.kind = "chunks"  -> r.out = Text(Flatten(r.chunks))
       [] r.kind = "enc"     -> r.out = Encode(r.sha, ND) /\ r.back = r.sha
       [] r.kind = "dec"     -> LET d == Decode(r.chars, r.blen, NB, ND) IN
                                IF d.ok THEN r.ok /\ r.sha = d.le ELSE ~r.ok
-      [] r.kind = "dirpair" -> /\ r.ok1 /\ r.ok2 /\ IsText(r.h1) /\ IsText(r.h2)
-                               /\ (SameTree(r.t1, r.t2) <=> r.h1 = r.h2)
+      [] r.kind = "dirpair" -> \* odd: a name that is not UTF-8 is involved - ruler may refuse to hash such a directory
+                               LET both == r.ok1 /\ r.ok2 IN
+                               /\ r.odd \/ both
+                               /\ both => /\ IsText(r.h1) /\ IsText(r.h2)
+                                          /\ (SameTree(r.t1, r.t2) <=> r.h1 = r.h2)
       [] OTHER -> FALSE
 
 \* the hashing scheme of the current code
-Conforms(r) == r.kind = "dirpair" => /\ r.h1 = Encode(DirDigest(r.root, r.t1), ND)
+Conforms(r) == (r.kind = "dirpair" /\ r.ok1 /\ r.ok2) => /\ r.h1 = Encode(DirDigest(r.root, r.t1), ND)
                                      /\ r.h2 = Encode(DirDigest(r.root, r.t2), ND)
 ====
